@@ -4,8 +4,8 @@
    The model (SigM.Trace) is a function of the records the query engine returns (and of the
    order of the group-by buckets / of the Go map iteration where the code depends on it);
    these orders are universally quantified in the theorems. *)
-From SigM Require Import Base Trace.
-From SigP Require Import BaseProofs TraceQsProofs TraceProofs.
+From SigM Require Import Base Trace TracePage.
+From SigP Require Import BaseProofs TraceQsProofs TraceProofs TracePageProofs.
 From Coq Require Import Permutation.
 Open Scope N_scope.
 
@@ -286,3 +286,106 @@ Theorem C12_red_metrics_exact : forall recs svc,
     end.
 Proof. exact red_metrics_exact. Qed.
 Print Assumptions C12_red_metrics_exact.
+
+(* ------------------------------------------------------------------------------------ *)
+(* Paged reads: views over more records than one internal result page (1000)             *)
+(* ------------------------------------------------------------------------------------ *)
+(* The dependency graph, the RED job and the span tree read their records with from = 0, 1000, 2000, ...
+   (size 1000); every request runs the query again and passes its hits, batch by batch, through
+   head(size+from) and the scroller(from) (SigM.TracePage follows headProcessor.Process and
+   scrollProcessor.Process with their uint64 counters).
+   One request: for ANY batching of the hits the answer is exactly the slice [from, from+size) of the hit
+   sequence — in particular the offset may end anywhere inside a batch. *)
+Theorem C12_page_is_the_from_size_slice : forall (A : Type) from size (bs : list (list A)),
+  from + size < pow2_64 ->
+  engine_page from size bs = firstn (N.to_nat size) (skipn (N.to_nat from) (concat bs)).
+Proof. exact @engine_page_spec. Qed.
+Print Assumptions C12_page_is_the_from_size_slice.
+
+Theorem C12_page_batching_irrelevant : forall (A : Type) from size (bs bs' : list (list A)),
+  from + size < pow2_64 -> concat bs = concat bs' -> engine_page from size bs = engine_page from size bs'.
+Proof. exact @engine_page_batching_irrelevant. Qed.
+Print Assumptions C12_page_batching_irrelevant.
+
+(* the searcher may stop after the head stage has seen size+from hits: a long enough prefix gives the same page *)
+Theorem C12_page_of_prefix : forall (A : Type) from size (bs : list (list A)) recs k,
+  from + size < pow2_64 -> concat bs = firstn k recs -> (N.to_nat (from + size) <= k)%nat ->
+  engine_page from size bs = firstn (N.to_nat size) (skipn (N.to_nat from) recs).
+Proof. exact @engine_page_prefix. Qed.
+Print Assumptions C12_page_of_prefix.
+
+(* The read loops: when every page request sees the same hit sequence [recs] (each request in its OWN
+   batching [bat from], universally quantified), the loop "until an empty page" (dependency graph, RED) and
+   the loop "until a page shorter than size" (span tree) return every record exactly once, in order
+   (multiples of the page size included).  The premise "same hit sequence for every request" is what fails
+   for hits with equal timestamps (finding paging_timestamp_ties of C05).
+
+   FULL STATEMENT (false for the code): ... for every number of records.
+   A search request with from > 10 000 is not executed (ParseAndExecutePipeRequest: isScrollMax, answered
+   with no hits), so the loops end after the request from = 10 000.  Guarded variant: the exact guard
+   [lenN recs <= reachable page] (= 11 000 records for the page size 1000 of the handlers); refutation:
+   11 001 records -> both loops return the newest 11 000 only (known finding
+   window_over_11000_spans_truncated: the dependency graph and the RED metrics of a window with more than
+   11 000 spans are computed from its newest 11 000 spans). *)
+Theorem C12_paged_read_all_complete_guarded : forall (A : Type) page (bat : N -> list (list A)) recs,
+  0 < page -> lenN recs + 2 * page < pow2_64 -> lenN recs <= reachable page ->
+  (forall from, concat (bat from) = recs) ->
+  paged_read_all page bat (length recs) = recs.
+Proof. exact @paged_read_all_complete. Qed.
+Print Assumptions C12_paged_read_all_complete_guarded.
+
+Theorem C12_paged_read_trace_complete_guarded : forall (A : Type) page (bat : N -> list (list A)) recs,
+  0 < page -> lenN recs + 2 * page < pow2_64 -> lenN recs <= reachable page ->
+  (forall from, concat (bat from) = recs) ->
+  paged_read_trace page bat (length recs) = recs.
+Proof. exact @paged_read_trace_complete. Qed.
+Print Assumptions C12_paged_read_trace_complete_guarded.
+
+Theorem C12_paged_read_complete_refuted :
+  reachable PAGE = 11000 /\
+  exists recs : list N, lenN recs = 11001 /\
+    paged_read_all PAGE (fun _ => [recs]) (length recs) = firstn (N.to_nat 11000) recs /\
+    paged_read_trace PAGE (fun _ => [recs]) (length recs) = firstn (N.to_nat 11000) recs /\
+    firstn (N.to_nat 11000) recs <> recs.
+Proof. exact paged_read_over_reachable_refuted. Qed.
+Print Assumptions C12_paged_read_complete_refuted.
+
+(* non-vacuity of the guard: 2 500 records in batches of 700 *)
+Example C12_paged_read_guard_satisfiable :
+  let recs := seq_N 0 (N.to_nat 2500) in
+  (lenN recs <=? reachable PAGE) = true /\
+  paged_read_all PAGE (fun _ => cut [700; 700; 700]%nat recs) (length recs) = recs.
+Proof. vm_compute. split; reflexivity. Qed.
+
+(* Sensitivity of the model: a scroller whose counter goes down by the SIZE OF THE BATCH instead of by the
+   number of records it discarded wraps around when the offset ends strictly inside a batch, and drops every
+   later batch: from = 1 over the batches [0;1] [2] gives [1] instead of [1;2]. *)
+Theorem C12_scroll_counter_by_batch_refuted :
+  exists (from : N) (bs : list (list N)),
+    concat (scroll_run_by_batch from bs) <> skipn (N.to_nat from) (concat bs) /\
+    concat (scroll_run from bs) = skipn (N.to_nat from) (concat bs) /\
+    concat (scroll_run_by_batch from bs) = [1] /\ skipn (N.to_nat from) (concat bs) = [1; 2].
+Proof. exact scroll_by_batch_refuted. Qed.
+Print Assumptions C12_scroll_counter_by_batch_refuted.
+
+(* The views over the paged reads are the views over the records: the dependency graph of a window of up to
+   11 000 spans (any number of pages, any batching per page request) counts exactly the crossing parent-child
+   pairs; RED and the span tree likewise. *)
+Theorem C12_dep_graph_paged_exact : forall (bat : N -> list (list span)) recs a b,
+  (forall from, concat (bat from) = recs) -> lenN recs <= 11000 ->
+  NoDup (map span_key recs) -> a <> b ->
+  dep_count (dep_graph (paged_read_all PAGE bat (length recs))) (a, b) = cross_pairs recs a b.
+Proof. exact dep_graph_paged_exact. Qed.
+Print Assumptions C12_dep_graph_paged_exact.
+
+Theorem C12_red_metrics_paged : forall (bat : N -> list (list span)) recs,
+  (forall from, concat (bat from) = recs) -> lenN recs <= 11000 ->
+  red_metrics (paged_read_all PAGE bat (length recs)) = red_metrics recs.
+Proof. exact red_metrics_paged. Qed.
+Print Assumptions C12_red_metrics_paged.
+
+Theorem C12_gantt_view_paged : forall (bat : N -> list (list span)) order recs,
+  (forall from, concat (bat from) = recs) -> lenN recs <= 11000 ->
+  gantt_view order (paged_read_trace PAGE bat (length recs)) = gantt_view order recs.
+Proof. exact gantt_view_paged. Qed.
+Print Assumptions C12_gantt_view_paged.
